@@ -138,6 +138,29 @@ pub fn markdown_doc(prose: &str, rng: &mut Rng) -> String {
     out
 }
 
+/// Lexically interesting atoms (things a condensing or lexing pass treats specially) strung together, so that
+/// every pass meets every other pass's output; about half of the soups hold a matched pair of quotes
+/// somewhere, whose twin indices must survive whatever the passes remove before or between them.
+pub const ATOMS: [&str; 64] = ["@octocat", "@a", "@rust-lang", "\"quick\"", "“yes”", "'single'", "‘curly’", "e.g.", "i.e.", "et al.", "N.S.A.",
+    "1st", "2nd", "22nd", "don't", "o'clock", "...", "well-known", "$5", "5%", "#tag", "a@b.com", "http://x.y/z", "x86", "3.14", "1,000",
+    "0x1F", "(paren)", "[bracket]", "—", "-", "--", "/", "C++", "it's", "’s", "1980s", "U.S.", "Mr.", "a.m.", "…", "!?", "§", "\u{a0}",
+    "\t", "  ", "the", "teh", "a", "I", "word", "Ünïcödé", "世界", "😀", ",", ";", ":", ".", "!", "?", "\n", "\n\n", "&", "10:30"];
+pub fn token_soup(rng: &mut Rng) -> String {
+    let n = rng.range(2, 12);
+    let mut out = String::new();
+    let quote_at = if rng.chance(1, 2) { Some(rng.below(n)) } else { None };
+    for i in 0..n {
+        if i > 0 && !rng.chance(1, 6) { out.push(' '); }
+        if Some(i) == quote_at {
+            let (o, c) = *rng.pick(&[("\"", "\""), ("“", "”"), ("\"", "”")]);
+            out.push_str(o); out.push_str(*rng.pick(&ATOMS[..])); out.push_str(c);
+        } else {
+            out.push_str(*rng.pick(&ATOMS[..]));
+        }
+    }
+    out
+}
+
 pub fn adversarial() -> Vec<String> {
     let mut v: Vec<String> = vec![
         "".into(), " ".into(), "\n".into(), "\n\n".into(), "\t".into(), "\r\n".into(), ".".into(),
